@@ -55,6 +55,8 @@ pub fn catalog() -> Vec<J> {
         // names that merely start with / contain / extend the reserved `_sd` and `...` (not reserved themselves)
         json!({"_sdk_version": "1.2", "device": {"model": "m", "_sd_card_serial": "s", "_sd1": 1, "x_sd": [{"_sdx": true, "_SD": null}]}, "apps": [{"_sd_": 1, "name": "a"}, [{"__sd": 2}]]}),
         json!({"....": 1, "...x": {"..": [{"... ": 2, "x...": 3}]}, "_sd.": "v", "_sd ": [{" _sd": 1}], "\u{2026}": {"_sd...": [], "..._sd": {}}}),
+        // members NAMED like registered JWT claims, nested and inside array elements
+        json!({"licence": {"iss": "dmv", "sub": "s", "aud": "a", "exp": 1, "nbf": 2, "iat": 3, "jti": "j", "cnf": {"k": 1}, "typ": "t", "alg": "none"}, "devices": [{"cnf": {"jwk": "x"}, "iss": "dev", "nbf": 9}]}),
         // length: more than 16 elements in one array
         json!({"long": [0, 1, 2, 3, 4, 5, 6, 7, 8, 9, 10, 11, 12, 13, 14, 15, 16], "after": {"k": 1}}),
         // width: containers with more than 10 members / elements
